@@ -206,6 +206,11 @@ public:
   DecodingTable(uint sigma) {
     this->nodes = 0;
     this->subtrees = new DecodingTree *[sigma];
+    // As load() does: the table of (length, bits) pairs used when decoding
+    for (uint i = 0; i < 256; i++) {
+      this->ventry[i].length = ((i & 240) >> 4);
+      this->ventry[i].bits = ((i & 15) + 1);
+    }
   };
 
   /** @returns the chunk length used in the table */
